@@ -134,6 +134,7 @@ pub fn a_altresize(_cfg: &Cfg, rs: &[(usize, usize)]) -> Vec<Op> {
         c(DecSet(vec![1049])),
         c(DecRst(vec![1049])),
         c(DecSet(vec![1047])),
+        c(DecRst(vec![1049, 47])), // two screen modes in one sequence
         c(Ed(Some(2))),
         c(Su(None)),
         c(Decstr),
